@@ -2,7 +2,7 @@
 from engine.h4v import H, libhdf_units
 
 META = dict(
-    bounds=["S1: ordered interface pairs inside hdf/src on a 3x2 image: DFR8(+palette)->GR, GR->DFR8, DF24(il 0..2)->GR(il 0..2), GR(il)->DF24(reqil), DFAN->AN and AN->DFAN; "
+    bounds=["S1: ordered interface pairs inside hdf/src on a 3x2 image: DFR8(+palette)->GR, GR->DFR8, DF24(il 0..2)->GR(il 0..2), GR(il)->DF24(reqil), DFAN->AN and AN->DFAN (second object with another ref, or with the SAME ref and another tag); GR->DFR8 / GR->DF24 are not registered (see plan()); "
             "all pixel/palette/description bytes symbolic"],
     stubs=["stdio = models/memio.c", "error stack = codes only", "malloc never fails", "sprintf model (E9)"],
     outside=["SD <-> DFSD <-> netCDF-style pairs (mfhdf whole stack)", "JPEG/IMCOMP", "the checked-in legacy files (fully concrete: nothing for a solver to decide)"],
